@@ -52,6 +52,7 @@ from mashumaro.core.meta.helpers import (
     is_local_type_name,
     is_named_tuple,
     is_optional,
+    is_type_alias_type,
     is_type_var_any,
     is_union_with_none,
     resolve_type_params,
@@ -1211,7 +1212,11 @@ class CodeBuilder:
     ) -> typing.Tuple[str, typing.Optional[str], bool]:
         metadata = self.metadatas.get(fname, {})
         alias = self.__get_field_alias(fname, ftype, metadata, config)
-        bare_type = get_type_origin(ftype) if is_annotated(ftype) else ftype
+        bare_type = ftype
+        while is_type_alias_type(bare_type):
+            bare_type = bare_type.__value__
+        if is_annotated(bare_type):
+            bare_type = get_type_origin(bare_type)
         could_be_none = (
             bare_type in (typing.Any, type(None), None)
             or is_type_var_any(self.get_real_type(fname, ftype))
